@@ -25,21 +25,24 @@ theorem c18_tests_agree (line : Bytes) :
     E.findCosmeticRuleMarker line = .ok (findCosmeticRuleMarker line) :=
   ⟨isComment_eq line, findCosmeticRuleMarker_eq line⟩
 
-/-- A list line whose trimmed text is `IP (sp|tab)+ name ((sp|tab)+ name)* ws* ['#' any]` outside the
-    carve-out yields, in the complete model of `NewRule`, the host rule with exactly the listed names
-    and the parsed address (text = the trimmed line). -/
+/-- A list line whose trimmed text is `IP (sp|tab)+ name ((sp|tab)+ name)* ws* ['#' any]` (address and
+    names without '$', the address not starting with '!') and whose comment does not begin with a
+    cosmetic marker directly after a name yields, in the complete model of `NewRule`, the host rule with
+    exactly the listed names and the parsed address (text = the trimmed line) -- whatever else the
+    comment contains (`$$`, `$@$`, ` ##` …: the carve-out after the repair of D16). -/
 theorem c18_dispatch_full (ext : Ext) (reShortcut : Bytes → Bytes) (line : Bytes)
     (ip : Bytes) (wn : List (Bytes × Bytes)) (trail cmt : Bytes) (a : Addr) (listID : Int)
     (htrim : trimSpace line = hostLineIP ip wn trail cmt)
     (hip : isHostToken ip = true) (hwn : goodPairs wn = true) (hne : wn ≠ [])
     (ht : allBlank trail = true) (hc : isCommentTail cmt = true)
     (ha : ext.parseAddr ip = some a)
-    (hout : hostLineCarveOut (hostLineIP ip wn trail cmt) = false) :
+    (hipd : isPlainToken ip = true) (hwnd : dollarFreePairs wn = true)
+    (hout : commentIsMarker trail cmt = false) :
     newRuleFull ext reShortcut line listID =
       .ok (some (.host { text := hostLineIP ip wn trail cmt, listID := listID,
                          hostnames := wn.map (·.2), ip := a })) := by
   rw [newRuleFull_kind, htrim,
-    c18_dispatch ext isDomainNameB ip wn trail cmt a listID hip hwn hne ht hc ha hout]
+    c18_dispatch ext isDomainNameB ip wn trail cmt a listID hip hwn hne ht hc ha hipd hwnd hout]
   rfl
 
 /-- The same for a bare domain name (`IsDomainName` is group E's state machine, no longer a
@@ -49,7 +52,8 @@ theorem c18_dispatch_bare_full (ext : Ext) (reShortcut : Bytes → Bytes) (line 
     (htrim : trimSpace line = hostLineBare name trail cmt)
     (hn : isHostToken name = true) (hdn : E.isDomainNameC name = .ok true)
     (ht : allBlank trail = true) (hc : isCommentTail cmt = true)
-    (hout : hostLineCarveOut (hostLineBare name trail cmt) = false) :
+    (hnd : isPlainToken name = true)
+    (hout : commentIsMarker trail cmt = false) :
     newRuleFull ext reShortcut line listID =
       .ok (some (.host { text := hostLineBare name trail cmt, listID := listID, hostnames := [name],
                          ip := { is4 := true, val := 0 } })) := by
@@ -57,7 +61,7 @@ theorem c18_dispatch_bare_full (ext : Ext) (reShortcut : Bytes → Bytes) (line 
     unfold isDomainNameB
     rw [hdn]
   rw [newRuleFull_kind, htrim,
-    c18_dispatch_bare ext isDomainNameB name trail cmt listID hn hdn' ht hc hout]
+    c18_dispatch_bare ext isDomainNameB name trail cmt listID hn hdn' ht hc hnd hout]
   rfl
 
 /-- A host rule produced by the complete model answers a query iff the name is listed. -/
@@ -81,10 +85,17 @@ example :
     let wn := [(lit " ", lit "example.org"), (lit "  ", lit "www.example.org")]
     trimSpace line = hostLineIP ip wn (lit " ") (lit "# note") ∧
     isHostToken ip = true ∧ goodPairs wn = true ∧ allBlank (lit " ") = true ∧ isCommentTail (lit "# note") = true ∧
-    hostLineCarveOut (hostLineIP ip wn (lit " ") (lit "# note")) = false := by decide
+    isPlainToken ip = true ∧ dollarFreePairs wn = true ∧
+    commentIsMarker (lit " ") (lit "# note") = false := by decide
 
 example : (match newRuleFull exExt (fun _ => []) (lit "  0.0.0.0 example.org  www.example.org # note\r\n") 3 with
     | .ok (some (.host h)) => some (h.hostnames, h.listID)
     | _ => none) = some ([lit "example.org", lit "www.example.org"], 3) := by decide
+
+/-- The D16 replay through the complete model of `NewRule`: `0.0.0.0 example.org # costs$$5` is the
+    host rule for `example.org` (before /repo d2e67f2 the line was rejected as a cosmetic rule). -/
+example : (match newRuleFull exExt (fun _ => []) (lit "0.0.0.0 example.org # costs$$5\n") 3 with
+    | .ok (some (.host h)) => some (h.hostnames, h.listID)
+    | _ => none) = some ([lit "example.org"], 3) := by decide
 
 end UF.C18
